@@ -42,7 +42,7 @@ def shards(tier, seed):
 
 def universe(seed, uid):
     rng = core.rng_for(seed, PROP, 'uni%d' % uid)
-    o = gen.Opts(sub_names=True, attrs=False, nested_arrays=0.0, styles=('wrapped', 'wrapped', 'wrapped', 'bare'), multi_return=False,
+    o = gen.Opts(digits=True, sub_names=True, attrs=False, nested_arrays=0.0, styles=('wrapped', 'wrapped', 'wrapped', 'bare'), multi_return=False,
                  inheritance=True, text_alphabet='any')
     return gen.rand_universe(rng, o, uid=uid)
 
